@@ -43,7 +43,8 @@ ClockBase == 1000
 
 NoPipe == [ex |-> FALSE, k |-> "-", h |-> FALSE, par |-> "-", sq |-> 0, fd |-> "-", out |-> "-", os |-> 0,
            a |-> -1, b |-> -1, tg |-> "none", ini |-> FALSE,
-           q |-> <<>>, nb |-> 0, pm |-> 0, pb |-> {}, tm |-> -1, um |-> FALSE, pf |-> "-", uc |-> FALSE]
+           q |-> <<>>, nb |-> 0, pm |-> 0, pb |-> {}, tm |-> -1, um |-> FALSE, pf |-> "-", uc |-> FALSE,
+           rn |-> "-"]     \* rn: name of the brand new sink the probe will connect at the next refusal
 NoSink == [ex |-> FALSE, h |-> FALSE, acc |-> TRUE, fd |-> "-", blk |-> FALSE, hq |-> 0, rq |-> <<>>]
 DetMode == [det |-> TRUE, n |-> TLCEval([p \in PipeNames |-> 0]), d |-> {}, k |-> {}, dead |-> {}]
 NoGhost == [in |-> TLCEval([p \in PipeNames |-> <<>>]), out |-> TLCEval([p \in PipeNames |-> <<>>]), fr |-> TLCEval([p \in PipeNames |-> <<>>]),
@@ -156,6 +157,11 @@ Ctl(S, p) ==
               ELSE SetP(S, p, "uc", TRUE)
     ELSE S
 
+\* the probe of p is armed (renew), its output is a sink that only p feeds and that the application still holds
+Renewable(S, p) == LET P == S.p[p] IN
+    /\ P.rn # "-" /\ P.rn \notin S.used /\ P.out \in SinkNames
+    /\ S.s[P.out].ex /\ S.s[P.out].h /\ Up(S, P.out) = 1
+
 \* ---- the data path --------------------------------------------------------------
 RECURSIVE Push(_, _, _, _), Out(_, _, _, _), SetFdOn(_, _, _), TblkDrain(_, _), TlDrain(_, _)
 
@@ -189,6 +195,18 @@ Out(S, p, b, src) ==
     ELSE IF P.os = 1 THEN Push(GOut(S, p, b.id), P.out, b, src)
     ELSE LET S1 == SetFdOn(S, P.out, P.fd) IN
          IF S1.ok THEN Push(GOut(SetP(S1, p, "os", 1), p, b.id), P.out, b, src)
+         \* refused: need_output.  The probe may answer by dropping the refused sink for good (the output is
+         \* disconnected, the application's handle released) and connecting a brand new one: the helper then
+         \* negotiates with the new output, once, and the buffer in hand goes there
+         ELSE IF Renewable(S1, p)
+         THEN LET t == P.out
+                  n == P.rn
+                  S2 == Reroute([S1 EXCEPT !.s[t].h = FALSE,
+                                           !.s[n] = [NoSink EXCEPT !.ex = TRUE, !.h = TRUE], !.used = @ \cup {n},
+                                           !.p[p].out = n, !.p[p].os = 0, !.p[p].rn = "-"])
+                  S3 == SetFdOn(S2, n, P.fd)
+              IN IF S3.ok THEN Push(GOut(SetP(S3, p, "os", 1), p, b.id), n, b, src)
+                 ELSE Free(SetP(S3, p, "os", 2), p, b)
          ELSE Free(SetP(S1, p, "os", 2), p, b)
 
 \* upipe_tblk (detailed): consume the head of the queue while possible
@@ -373,6 +391,7 @@ Effect(S, c) ==
             [S EXCEPT !.s[c.s].blk = FALSE, !.s[c.s].hq = 0,
                       !.p = TLCEval([x \in PipeNames |-> [S.p[x] EXCEPT !.pb = @ \ {c.s}]])]
       [] c.op = "policy" -> [S EXCEPT !.s[c.s].acc = (c.v = "accept")]
+      [] c.op = "renew" -> SetP(S, c.p, "rn", c.s)
       [] c.op = "disp" ->
             LET P == S.p[c.p] IN
             IF ~S.m.det THEN S
@@ -412,6 +431,7 @@ CanDo(S, c) ==
       [] c.op = "in" -> S.p[c.p].ex /\ S.p[c.p].h /\ S.p[c.p].k # "dupo"
       [] c.op = "opt" -> S.p[c.p].ex /\ S.p[c.p].h
       [] c.op \in {"block", "unblock", "policy", "provall"} -> S.s[c.s].ex
+      [] c.op = "renew" -> S.p[c.p].ex /\ S.p[c.p].h /\ S.p[c.p].k \notin {"null", "dup"} /\ c.s \notin S.used
       [] c.op = "disp" -> c.p \in S.used
       [] c.op \in {"adv", "drained"} -> TRUE
       [] c.op = "rel" -> Exists(S, c.n) /\ (IF c.n \in SinkNames THEN S.s[c.n].h ELSE S.p[c.n].h)
